@@ -1330,6 +1330,16 @@ func (x *Exec) rangeIndexed(s *ast.RangeStmt, st *State, label string, spec *Loo
 	if !back.dead {
 		x.loopInvs(spec, back, env, "inv-keep", s.Pos())
 	}
+	if spec != nil {
+		// what must hold when the loop is left: by exhausting the range, and equally by a `break`
+		for _, out := range append([]*State{se}, lc.breaks...) {
+			for _, ex := range spec.Exits {
+				for _, g := range x.specConjuncts(ex.Expr, env.at(out)) {
+					x.assert(out, "loop-exit", fmt.Sprintf("loop%d: %s", spec.Ord, g.label(ex.Label)), g.t, ex.Tags, s.Pos())
+				}
+			}
+		}
+	}
 	st.set(x.merge(append(lc.breaks, se)...))
 }
 
